@@ -142,6 +142,18 @@ def pfEq (x y : PixelFormat) : Bool :=
                      x.redShift == y.redShift && x.greenShift == y.greenShift &&
                      x.blueShift == y.blueShift))
 
+/-- a colour channel fits into the pixel: `shift < bpp` and `(max << shift) >> bpp == 0`
+(`rfbChannelFitsPixel`, present only in trees that validate — see `channelCheck`) -/
+def channelFits (max shift bpp : Nat) : Bool := shift < bpp && (max <<< shift) >>> bpp == 0
+
+/-- the validation of the client's channels.  Whether the tree performs it is observed by the T0
+probe (`Gen.C10.validatesChannelFit`: the tree as received does not; `fixes/C04-pixfmt-validate.diff`
+adds it).  Colour-map clients are not checked. -/
+def channelCheck (cli : PixelFormat) : Bool :=
+  !Gen.C10.validatesChannelFit || !cli.trueColour ||
+  (channelFits cli.redMax cli.redShift cli.bpp && channelFits cli.greenMax cli.greenShift cli.bpp &&
+   channelFits cli.blueMax cli.blueShift cli.bpp)
+
 structure SetResult where
   strat : Strategy
   /-- `cl->format` after the call (BGR233 for colour-map clients) -/
@@ -156,6 +168,7 @@ def setTranslate (econ : Bool) (srv cli : PixelFormat) : SetResult :=
   if !validBpp srv.bpp then ⟨.reject, cli, false⟩
   else if !validBpp cli.bpp then ⟨.reject, cli, false⟩
   else if !cli.trueColour && cli.bpp != 8 then ⟨.reject, cli, false⟩
+  else if !channelCheck cli then ⟨.reject, cli, false⟩
   else
     let sent := !cli.trueColour
     let c := if cli.trueColour then cli else bgr233Format
